@@ -205,6 +205,40 @@ func init() {
 					}
 				}
 			}
+			// two links on one path: a link in /w leading (or not) to a directory that holds a second link, which dangles,
+			// loops, leads to a file, to a directory or back up; creating and querying calls go through both
+			if c.Shard == 2%c.NShards {
+				for _, t1 := range []string{"real", "/w/real", "../w/real", "zz", "good", "f", "real/sub"} {
+					for _, t2 := range []string{"gone", "../gone", "/w/gone", "../f", "dang", "../real", "sub", "../good", "/w/good/sub", "gone/deeper"} {
+						g := []fsx.Op{
+							{K: "Mkdir", P: "/w", Perm: 0o755}, {K: "WriteFile", P: "/w/f", Data: "content-of-f", Perm: 0o644},
+							{K: "Mkdir", P: "/w/real", Perm: 0o755}, {K: "Mkdir", P: "/w/real/sub", Perm: 0o755}, {K: "WriteFile", P: "/w/real/sub/m", Data: "m", Perm: 0o644},
+							{K: "Symlink", P: t1, Q: "/w/good"}, {K: "Symlink", P: t2, Q: "/w/real/dang"}, {K: "Symlink", P: t2, Q: "/w/real/sub/dang"},
+						}
+						var ops []fsx.Op
+						for _, p := range []string{"/w/good/dang", "/w/good/dang/x", "/w/good/dang/x/y", "/w/good/sub/dang/x", "/w/real/dang/x", "/w/good/dang/m"} {
+							ops = append(ops, fsx.Op{K: "MkdirAll", P: p, Perm: 0o755}, fsx.Op{K: "Mkdir", P: p, Perm: 0o755}, fsx.Op{K: "WriteFile", P: p, Data: "w", Perm: 0o644},
+								fsx.Op{K: "OpenWriteClose", P: p, Flag: syscall.O_WRONLY | syscall.O_CREAT | syscall.O_EXCL, Perm: 0o644, Data: "c"}, fsx.Op{K: "Symlink", P: "f", Q: p},
+								fsx.Op{K: "Rename", P: "/w/f", Q: p}, fsx.Op{K: "Link", P: "/w/f", Q: p}, fsx.Op{K: "Remove", P: p}, fsx.Op{K: "RemoveAll", P: p}, fsx.Op{K: "Chdir", P: p})
+						}
+						for _, o := range ops {
+							if !c04Build(l, g) {
+								break
+							}
+							c.Rep.Count("two_link_path_cases", 1)
+							sr := l.step(o)
+							l.report(0o022, sr, false)
+						}
+						if c04Build(l, g) {
+							for _, p := range []string{"/w/good/dang", "/w/good/dang/x", "/w/good/sub/dang", "/w/good/sub/dang/m", "/w/real/dang/sub/m"} {
+								for _, q := range c04Queries {
+									l.report(0o022, l.stepQuery(fsx.Op{K: q, P: p}), false)
+								}
+							}
+						}
+					}
+				}
+			}
 			// loop budget: chains c0 -> c1 -> ... -> f
 			if c.Shard == 0 {
 				for _, n := range []int{1, 2, 8, 39, 40, 41, 64, 65, 255, 256} {
